@@ -631,7 +631,15 @@ fn is_integer_type(ty: &goty::GoType) -> bool {
 
 fn keep_effects_of_dead_value(v: ast::Expr) -> ast::Stmt {
     match &v {
-        ast::Expr::Call { func, .. } if !is_pure_go_builtin(func) => ast::Stmt::Expr(v),
+        // A package-qualified callee may be a Go type (`time.Duration(n)` is a conversion);
+        // Go rejects an unused conversion as an expression statement, so its value goes to `_`.
+        ast::Expr::Call { func, ty, .. }
+            if !is_pure_go_builtin(func)
+                && !(matches!(func.as_ref(), ast::Expr::Var { name, .. } if name.contains('.'))
+                    && !matches!(ty, goty::GoType::TUnit | goty::GoType::TVoid)) =>
+        {
+            ast::Stmt::Expr(v)
+        }
         _ => ast::Stmt::Assignment {
             name: "_".to_string(),
             value: v,
